@@ -290,6 +290,15 @@ def reset_on_kill(F, rec):
                         guard_ok = True
             rec.need(guard_ok, 'reset-not-guarded', rf, bi,
                      'the reset to Missing is not exactly "when the piece is not Have"')
+            # no further condition: once the dead peer is known to have an assigned piece, the != Have test is always made
+            tests = [sb for sb in rf.switches() if rf.cond(sb)[0][0] == 'call' and rf.cond(sb)[0][4].get('name') in ('ne', 'eq')
+                     and any(y[0] == 'agg' and y[3] == 'Have' for y in walk(rf.cond(sb)[0]))]
+            for subj, sb2, nt, st2 in mirq.option_tests(rf):
+                if V.peer_record(F) in re.split(r'[^A-Za-z0-9_]+', access_path(subj) or ''):
+                    ok2, bad2 = must_pass(rf, tests, rf.return_blocks(), start=st2)
+                    rec.need(ok2 and tests, 'reset-extra-condition', rf, sb2,
+                             'a dead peer with an assigned piece can be removed without the "not Have -> Missing" reset being considered '
+                             '(an additional condition guards it): its reservation is never released')
         rec.need(bool(st), 'no-reset', rf, None, 'the peer remover no longer resets the piece to Missing')
 
 
@@ -822,7 +831,7 @@ def dict_entry_of(v):
     return key[0], var, g[2][0]
 
 
-def check_list_records(F, rec, L, adt_re, want, keyprefix):
+def check_list_records(F, rec, L, adt_re, want, keyprefix, roles=None):
     """every record of type adt_re built by L takes field f from key want[f][0] matched as variant want[f][1] of the same
     dictionary, which is the Dict payload of the list element itself; the list is walked in order without reordering"""
     recs = list_records(F, L, adt_re)
@@ -835,7 +844,7 @@ def check_list_records(F, rec, L, adt_re, want, keyprefix):
             ent = dict_entry_of(v) if v is not None else None
             desc[n] = (ent[0], ent[1]) if ent else None
             ok = ent is not None and ent[0] == key and ent[1] == variant
-            rec.need(ok, '%s/%s' % (keyprefix, n), f, bi,
+            rec.need(ok, '%s/%s' % (keyprefix, (roles or {}).get(n, n)), f, bi,
                      'field %s is built from %s, expected key "%s" matched as %s' % (n, (ent[0], ent[1]) if ent else (show(v)[-80:] if v else None), key, variant))
             if ent:
                 dicts.add(show(ent[2]))
@@ -867,4 +876,9 @@ def is_param(f, e, which=None):
         return False
     root = p.split('.')[0].split('<')[0].split('[')[0]
     names = {n for n, l, t in params_of(f)}
+    if f.coroutine or f.kind == 'Closure':
+        # the body of an async fn sees the parameters of the function it belongs to
+        owner = f.facts.owner_fn(f)
+        if f.coroutine and f.parent == owner.path:
+            names |= {n for n, l, t in params_of(owner)}
     return root in names and (which is None or root in which)
